@@ -4,7 +4,13 @@
  * the derived-arc form of lean/Driver/Cache.lean, followed by the raw ring
  * (R=<split>;<next/prev pairs>) for the independent well-formedness check. */
 #define ENABLE_DEBUG 1
+#include <stdlib.h>
+/* every free() made by cache.c goes through here: this is how the harness sees the cache object being freed */
+static void *watch_ptr; static int watch_freed;
+static void h_free(void *p) { if (p && p == watch_ptr) watch_freed = 1; (free)(p); }
+#define free(p) h_free(p)
 #include "src/kdumpfile/cache.c"
+#undef free
 #include <stdio.h>
 #include <string.h>
 
@@ -74,20 +80,48 @@ static void show(const char *res)
 	putchar('\n');
 }
 
+/* life cycle of a released cache: shadow reference counts kept by the harness (the object may be gone) */
+static unsigned shadow[4096], shadowN;
+static void show_life(const char *what)
+{
+	unsigned i, first = 1;
+	printf("> %s freed=%d refs=", what, watch_freed);
+	for (i = 0; i < shadowN; ++i)
+		if (shadow[i]) { printf("%s%u:%u", first ? "" : ",", i, shadow[i]); first = 0; }
+	putchar('\n');
+}
+
 int main(void)
 {
 	char line[256], res[64];
-	int dead = 0;
+	int dead = 0, orphan = 0;
 	setvbuf(stdout, NULL, _IOLBF, 0);
 	while (fgets(line, sizeof line, stdin)) {
 		unsigned long long k; unsigned cap;
 		if (sscanf(line, "new %u", &cap) == 1) {
 			if (C) cache_free(C);
 			C = cache_alloc(cap, ELEM);
-			dead = 0;
+			dead = 0; orphan = 0; watch_ptr = NULL; watch_freed = 0;
 			show("done");
 		} else if (dead) {
 			puts("> dead");
+		} else if (!strncmp(line, "release", 7)) {
+			unsigned i;
+			shadowN = 2 * C->cap;
+			for (i = 0; i < shadowN; ++i) shadow[i] = C->ce[i].refcnt;
+			watch_ptr = C; watch_freed = 0;
+			cache_release(C);
+			orphan = 1;
+			show_life("released");
+			if (watch_freed) { C = NULL; dead = 1; }
+		} else if (orphan && (sscanf(line, "put %llu", &k) == 1 || sscanf(line, "discard %llu", &k) == 1)) {
+			if (k >= shadowN || !shadow[k]) { puts("> bad-op"); continue; }
+			--shadow[k];
+			if (line[0] == 'p') cache_put_entry(C, &C->ce[k]); else cache_discard(C, &C->ce[k]);
+			show_life("orphan");
+			if (watch_freed) { C = NULL; dead = 1; }
+		} else if (orphan) {
+			puts("> bad-op");
 		} else if (sscanf(line, "get %llu", &k) == 1) {
 			struct cache_entry *e = cache_get_entry(C, k);
 			if (e) snprintf(res, sizeof res, "entry:%ld:%d", (long)(e - C->ce), cache_entry_valid(e));
